@@ -46,6 +46,7 @@ import (
 	"os"
 	"reflect"
 	"strconv"
+	"strings"
 	"sync"
 	"sync/atomic"
 	"time"
@@ -77,7 +78,9 @@ type Case struct {
 	//   inflight   the context is cancelled while the server holds the request
 	//   deadline   the context deadline expires while the server holds the request
 	//   timeout    http.Client.Timeout expires while the server holds the request
-	//   bodyhang   the server sends status+headers+Body and then stalls; http.Client.Timeout expires while the body is read
+	//   bodyhang   the server sends status+headers+Body and then stalls; the context is cancelled as soon as the
+	//              headers have arrived, so reading the body fails
+	//   bodytimeout  same, but http.Client.Timeout expires while the body is read
 	//   badbase    the base URL does not parse (url.JoinPath fails)
 	//   nilctx     a nil context is passed (http.NewRequestWithContext fails)
 	//   marshal    the struct argument cannot be marshalled (NaN)
@@ -125,6 +128,7 @@ type Obs struct {
 	Verb      string  `json:"verb"`
 	Panic     string  `json:"panic"`
 	DeclRes   string  `json:"decl_res"` // reflect type of the declared result
+	GotResp   bool    `json:"got_resp"` // the innermost transport produced a response
 }
 
 // ------------------------------------------------------------ response body
@@ -166,11 +170,17 @@ type countBody struct {
 	inner  io.ReadCloser
 	reads  int32
 	closed int32
+	mu     sync.Mutex
+	buf    bytes.Buffer // the bytes the caller actually received
 }
 
 func (b *countBody) Read(p []byte) (int, error) {
 	atomic.AddInt32(&b.reads, 1)
-	return b.inner.Read(p)
+	n, err := b.inner.Read(p)
+	b.mu.Lock()
+	b.buf.Write(p[:n])
+	b.mu.Unlock()
+	return n, err
 }
 func (b *countBody) Close() error {
 	atomic.AddInt32(&b.closed, 1)
@@ -242,6 +252,7 @@ type state struct {
 	lastURL  string
 	deliv    *string
 	hc       *http.Client
+	cancel   context.CancelFunc
 }
 
 func (st *state) mw() middleware.Middleware {
@@ -304,6 +315,9 @@ func (st *state) mw() middleware.Middleware {
 				st.cb = &countBody{inner: resp.Body}
 				resp.Body = st.cb
 				st.resp = resp
+				if c.Fault == "bodyhang" {
+					st.cancel()
+				}
 			}
 			return resp, err
 		})
@@ -319,11 +333,38 @@ func (st *state) verbOr(d string) string {
 
 var closedPortURL string
 
+// http.Client decorates a timeout error with this suffix only when its own
+// timer (and not the context deadline it also installs) fired first: a race
+// inside net/http, so the suffix is ignored when comparing with the reference
+const clientTimeoutSuffix = " (Client.Timeout exceeded while awaiting headers)"
+
 func errSame(a, b error) bool {
 	if a == nil || b == nil {
 		return false
 	}
-	return reflect.TypeOf(a) == reflect.TypeOf(b) && a.Error() == b.Error()
+	return reflect.TypeOf(a) == reflect.TypeOf(b) &&
+		strings.TrimSuffix(a.Error(), clientTimeoutSuffix) == strings.TrimSuffix(b.Error(), clientTimeoutSuffix)
+}
+
+// equality of two errors returned by http.Client.Do: same dynamic type, and
+// for *url.Error the same Op and URL and either the same text or both
+// timeouts (net/http words a Client.Timeout expiry in three different ways
+// depending on which of its timers fires first)
+func errSameDo(a, b error) bool {
+	if errSame(a, b) {
+		return true
+	}
+	ua, ok1 := a.(*url.Error)
+	ub, ok2 := b.(*url.Error)
+	return ok1 && ok2 && ua.Op == ub.Op && ua.URL == ub.URL && ua.Timeout() && ub.Timeout()
+}
+
+func isCancelOrTimeout(err error) bool {
+	if errors.Is(err, context.Canceled) || errors.Is(err, context.DeadlineExceeded) {
+		return true
+	}
+	var ne net.Error
+	return errors.As(err, &ne) && ne.Timeout()
 }
 
 func canon(v reflect.Value) (string, bool) {
@@ -375,6 +416,7 @@ func runCase(c Case) (o Obs) {
 	base := srv.URL + "/base"
 	ctx, cancel := context.WithCancel(context.Background())
 	defer cancel()
+	st.cancel = cancel
 	var sc *script
 	if c.Mode == "srv" {
 		sc = &script{status: int(c.Status), body: c.Body}
@@ -400,7 +442,9 @@ func runCase(c Case) (o Obs) {
 			clientTimeout = 30 * time.Millisecond
 		case "bodyhang":
 			sc = &script{status: int(c.Status), body: c.Body, stall: true}
-			clientTimeout = 60 * time.Millisecond
+		case "bodytimeout":
+			sc = &script{status: int(c.Status), body: c.Body, stall: true}
+			clientTimeout = 400 * time.Millisecond
 		case "badbase":
 			base = "http://[::1"
 		case "nilctx":
@@ -485,14 +529,29 @@ func runCase(c Case) (o Obs) {
 		o.Zero, o.ZeroNil = canon(reflect.Zero(decT))
 	}
 	var decErr error
-	if decT != nil && st.deliv != nil && st.cb == nil {
+	var marker error
+	if st.cb != nil && st.resp != nil {
+		// a streamed body that failed: what the caller received is what passed through Read
+		st.cb.mu.Lock()
+		d := st.cb.buf.String()
+		st.cb.mu.Unlock()
+		st.deliv = &d
+		marker = &readFault{-c.I - 1}
+	}
+	if decT != nil && st.deliv != nil && st.resp != nil {
 		var f error
 		if st.rb != nil {
 			f = st.rb.fault
 		}
+		if marker != nil {
+			f = marker
+		}
 		o.Dec, decErr = directDecode(decT, []byte(*st.deliv), f)
 	}
-	o.Delivered = st.deliv
+	if st.resp != nil {
+		o.Delivered = st.deliv
+	}
+	o.GotResp = st.resp != nil
 	if st.rb != nil {
 		o.Reads, o.Closed = int(atomic.LoadInt32(&st.rb.reads)), int(atomic.LoadInt32(&st.rb.closed))
 	}
@@ -509,13 +568,17 @@ func runCase(c Case) (o Obs) {
 			e.Same = "do"
 		case decErr != nil && errSame(gotErr, decErr):
 			e.Same = "decode"
+		case marker != nil && decErr == marker && isCancelOrTimeout(gotErr):
+			// the decoder handed on the error of the failing body reader
+			e.Same = "decode"
 		case c.Mode == "fault":
-			if ref := reference(st, c, base, ctx, nilCtx, mt); errSame(gotErr, ref) {
-				if c.Fault == "badbase" || c.Fault == "nilctx" || c.Fault == "marshal" {
+			ref := reference(st, c, base, ctx, nilCtx, mt)
+			if c.Fault == "badbase" || c.Fault == "nilctx" || c.Fault == "marshal" {
+				if errSame(gotErr, ref) {
 					e.Same = "pre"
-				} else {
-					e.Same = "do"
 				}
+			} else if errSameDo(gotErr, ref) {
+				e.Same = "do"
 			}
 		}
 		o.Err = e
@@ -535,8 +598,10 @@ func reference(st *state, c Case, base string, ctx context.Context, nilCtx bool,
 	case "nilctx":
 		_, err := http.NewRequestWithContext(nil, st.verbOr("GET"), base, nil) //nolint:staticcheck
 		return err
-	case "bodyhang":
-		return nil
+	case "bodyhang", "bodytimeout":
+		if st.resp != nil {
+			return nil
+		}
 	}
 	// a fresh, equivalent request through the very same http.Client
 	var rctx context.Context = ctx
@@ -552,7 +617,7 @@ func reference(st *state, c Case, base string, ctx context.Context, nilCtx bool,
 	}
 	sc := &script{hang: true, release: make(chan struct{})}
 	id := strconv.Itoa(c.I)
-	if c.Fault == "inflight" || c.Fault == "deadline" || c.Fault == "timeout" {
+	if c.Fault == "inflight" || c.Fault == "deadline" || c.Fault == "timeout" || c.Fault == "bodytimeout" {
 		scripts.Store(id, sc)
 		defer close(sc.release)
 	}
@@ -574,12 +639,9 @@ func reference(st *state, c Case, base string, ctx context.Context, nilCtx bool,
 func main() {
 	srv = httptest.NewServer(http.HandlerFunc(handler))
 	defer srv.Close()
-	l, err := net.Listen("tcp", "127.0.0.1:0")
-	if err != nil {
-		panic(err)
-	}
-	closedPortURL = "http://" + l.Addr().String() + "/base"
-	l.Close()
+	// a port nobody listens on: an ephemeral port that was just closed could be taken by
+	// another process while the cases run (several checks share the machine), port 1 cannot
+	closedPortURL = "http://127.0.0.1:1/base"
 
 	par := 6
 	if len(os.Args) > 1 {
